@@ -343,7 +343,7 @@ def opaque_part(m):
     return tuple((a, ek) for a, ek in m if a[0] in OPAQUE_KINDS)
 
 
-def definitely_different(p, q):
+def definitely_different(p, q, _no_frac=False):
     """Decide p == q as functions.  Returns 'equal', 'different' or 'not-comparable'.
 
     d = p - q is written as  G * N  where G is a product of opaque atoms common to all
@@ -357,12 +357,51 @@ def definitely_different(p, q):
     d = p - q
     if d.is_zero():
         return "equal"
+    if not _no_frac and p.is_monomial() and q.is_monomial():
+        # single products of positive quantities: A == B  iff  A**L == B**L; L clears the fractional
+        # constant exponents of opaque sums so that they can be expanded
+        from math import gcd
+        L = 1
+        for poly in (p, q):
+            for m in poly.terms:
+                for a, ek in m:
+                    if a[0] == "s":
+                        c = from_key(ek).as_const()
+                        if c is not None:
+                            L = L * c.denominator // gcd(L, c.denominator)
+        if 1 < L <= 6:
+            try:
+                return definitely_different(p.pow(Poly.const(L)), q.pow(Poly.const(L)), _no_frac=True)
+            except NotComparable:
+                pass
     monos = list(d.terms.items())
     opaque = set()
     for m, _ in monos:
         for a, _ek in m:
             if a[0] in OPAQUE_KINDS:
                 opaque.add(a)
+    # Terms whose opaque factors carry different *symbolic* exponents (s**p vs s**0, p a free name) are
+    # linearly independent functions (exponential in p with a non-constant base vs not), so d == 0 iff
+    # every class of equal symbolic exponent parts vanishes on its own.
+    def sym_part(m):
+        out = []
+        for a in sorted(opaque, key=_skey):
+            e = ZERO
+            for b, ek in m:
+                if b == a:
+                    e = from_key(ek)
+            c = e.terms.get((), Fraction(0))
+            out.append((e - Poly.const(c)).key)
+        return tuple(out)
+
+    classes = {}
+    for m, c in monos:
+        classes.setdefault(sym_part(m), {})[m] = c
+    if len(classes) > 1:
+        verdicts = [definitely_different(Poly(t), ZERO, _no_frac=True) for t in classes.values()]
+        if "different" in verdicts:
+            return "different"
+        return "equal" if all(v == "equal" for v in verdicts) else "not-comparable"
     shifts = {}  # atom -> list of natural numbers per monomial
     for a in opaque:
         exps = []
@@ -570,6 +609,7 @@ class Evaluator:
         self.leaf = leaf
         self.call = call
         self.module_consts = module_consts or {}
+        self.eval_expr_calls = False  # evaluate calls made for effect (lets the call hook observe them)
         self.name_atoms = {}  # local name -> atom name, applied when the name is bound to a non-Poly value
         self.stores = []
         self.returns = []  # (value, depth)
@@ -598,7 +638,7 @@ class Evaluator:
                 finally:
                     self._const_busy.discard(node.id)
             return Unknown("free name %s" % node.id)
-        if isinstance(node, ast.Tuple):
+        if isinstance(node, (ast.Tuple, ast.List)):
             return tuple(self.ev(e) for e in node.elts)
         if isinstance(node, ast.UnaryOp):
             if isinstance(node.op, ast.USub):
@@ -873,6 +913,8 @@ class Evaluator:
                         self.env[k] = Unknown("assigned in a loop")
             return
         if isinstance(st, ast.Expr):
+            if self.eval_expr_calls and isinstance(st.value, ast.Call):
+                self._safe(lambda: self.ev(st.value))
             return  # calls for effect keep the symbolic identity of their arguments
         if isinstance(st, (ast.Pass, ast.Assert, ast.Raise)):
             if isinstance(st, ast.Raise):
